@@ -333,6 +333,40 @@ macro_rules! declare_storage_n {
                     }
                 )*
 
+                /// Verification hook (off by default): read-only copy of the raw bookkeeping.
+                #[cfg(gecs_verif)]
+                #[doc(hidden)]
+                pub fn verif_dump(&self) -> VerifDump {
+                    unsafe {
+                        // SAFETY: The slot storage is valid up to capacity, entities up to len.
+                        VerifDump {
+                            version: self.version.get().get(),
+                            len: self.len,
+                            capacity: self.capacity,
+                            free_head: self.free_head.verif_raw(),
+                            slots: self.slots.slice(self.capacity).iter().map(Slot::verif_raw).collect(),
+                            entities: self.entities.slice(self.len).iter().map(|e| e.into_any().raw()).collect(),
+                        }
+                    }
+                }
+
+                /// Verification hook (off by default): presets generation counters of an EMPTY
+                /// storage so that histories crossing the version overflow boundary are reachable.
+                #[cfg(gecs_verif)]
+                #[doc(hidden)]
+                pub fn verif_preset_versions(&mut self, slot_versions: &[(usize, u32)], arch_version: u32) {
+                    assert!(self.len == 0, "verif_preset_versions requires an empty storage");
+                    unsafe {
+                        // SAFETY: The slot storage is valid up to capacity.
+                        let slots = self.slots.slice_mut(self.capacity);
+                        for (index, version) in slot_versions.iter() {
+                            assert!(slots[*index].is_free());
+                            slots[*index].verif_set_version(*version);
+                        }
+                    }
+                    self.version = ArchetypeVersion::verif_new(arch_version);
+                }
+
                 /// Resolves the slot index and data index for a given entity.
                 /// Both indices are guaranteed to point to valid corresponding cells.
                 #[inline(always)]
@@ -1079,4 +1113,17 @@ fn resolve_ptr<T>(ptr: *mut u8, layout: Layout) -> NonNull<T> {
         Some(p) => p,
         None => alloc::handle_alloc_error(layout),
     }
+}
+
+/// Verification hook (off by default): raw copy of a storage's bookkeeping. See `verif_dump`.
+#[cfg(gecs_verif)]
+#[doc(hidden)]
+#[derive(Clone, Debug, PartialEq, Eq)]
+pub struct VerifDump {
+    pub version: u32,
+    pub len: usize,
+    pub capacity: usize,
+    pub free_head: u32,
+    pub slots: Vec<(u32, u32)>,    // Raw (index | free bit, version) of all `capacity` slots
+    pub entities: Vec<(u32, u32)>, // Raw (key, version) of the `len` dense entity handles
 }
